@@ -1,6 +1,9 @@
 package gocql
 
 import (
+	"context"
+
+	"github.com/gocql/gocql/internal/lru"
 	"crypto/md5"
 	"math/big"
 )
@@ -176,4 +179,90 @@ func vh_ring_lookup() {
 	}
 	vAssert(h == hosts[want] && end == token(murmur3Token(toks[want])), "C09/ring/owner-of-range")
 	vObserve("want", want)
+}
+
+// ---- which bound values make up the routing key, and in which order (Session.routingKeyInfo) ----
+//
+// Before protocol 4 the PREPARE answer carries no partition-key indexes: the driver maps the table's
+// partition-key columns (from the schema metadata, in KEY order) to the statement's bind markers by name.
+// From protocol 4 the server's indexes are used. Either way the composite routing key must list the
+// components in partition-key order, whatever order the statement binds them in.
+
+var (
+	vRKConn *Conn
+	vRKMeta *KeyspaceMetadata
+)
+
+func vstubSessionGetConn(s *Session) *Conn { return vRKConn }
+func vstubKeyspaceMetadata(s *Session, ks string) (*KeyspaceMetadata, error) {
+	if vRKMeta == nil {
+		return nil, vErrIO
+	}
+	return vRKMeta, nil
+}
+
+func vh_routing_key_info() {
+	s := &Session{stmtsLRU: &preparedLRU{lru: lru.New(4)}, logger: vNopLogger{}}
+	s.routingKeyInfoCache.lru = lru.New(4)
+	c := &Conn{session: s, host: &HostInfo{hostId: "00000000-0000-0000-0000-000000000001"}, version: byte(vBound("version")), currentKeyspace: "ks", ctx: context.Background(), logger: vNopLogger{}}
+	vRKConn = c
+	// table t: PRIMARY KEY ((k1, k2), c1); the statement binds k1, k2 and one other column in any order
+	names := [][]string{{"k1", "k2", "v"}, {"k2", "k1", "v"}, {"v", "k2", "k1"}, {"k2", "v", "k1"}, {"k1", "v"}}[vChoose("bind_order", 5)]
+	typOf := map[string]Type{"k1": TypeInt, "k2": TypeVarchar, "v": TypeBlob}
+	cols := make([]ColumnInfo, len(names))
+	for i, n := range names {
+		cols[i] = ColumnInfo{Keyspace: "ks", Table: "t", Name: n, TypeInfo: NativeType{proto: c.version, typ: typOf[n]}}
+	}
+	fl := &inflightPrepare{done: make(chan struct{}), preparedStatment: &preparedStatment{id: []byte{1}}}
+	fl.preparedStatment.request.columns = cols
+	fl.preparedStatment.request.colCount = len(cols)
+	fl.preparedStatment.request.actualColCount = len(cols)
+	fl.preparedStatment.request.keyspace, fl.preparedStatment.request.table = "ks", "t"
+	pos := func(n string) int {
+		for i, x := range names {
+			if x == n {
+				return i
+			}
+		}
+		return -1
+	}
+	complete := pos("k1") >= 0 && pos("k2") >= 0
+	if c.version >= 4 && complete {
+		// what the server reports: bind marker index of each partition key component, in key order
+		fl.preparedStatment.request.pkeyColumns = []int{pos("k1"), pos("k2")}
+	}
+	close(fl.done)
+	stmt := "UPDATE t SET v=? WHERE k1=? AND k2=?"
+	s.stmtsLRU.add(s.stmtsLRU.keyFor(c.host.HostID(), c.currentKeyspace, stmt), fl)
+	vRKMeta = &KeyspaceMetadata{Name: "ks", Tables: map[string]*TableMetadata{"t": {Keyspace: "ks", Name: "t",
+		PartitionKey: []*ColumnMetadata{{Name: "k1"}, {Name: "k2"}}}}}
+	info, err := s.routingKeyInfo(context.Background(), stmt)
+	vAssert(err == nil, "C09/routing-info/no-error")
+	if !complete {
+		vAssert(info == nil, "C09/routing-info/no-routing-key-without-every-component")
+		return
+	}
+	vAssert(info != nil && len(info.indexes) == 2 && len(info.types) == 2, "C09/routing-info/one-entry-per-key-component")
+	if info == nil || len(info.indexes) != 2 || len(info.types) != 2 {
+		return
+	}
+	vAssert(info.indexes[0] == pos("k1") && info.indexes[1] == pos("k2"), "C09/routing-info/components-in-partition-key-order")
+	vAssert(info.types[0].Type() == TypeInt && info.types[1].Type() == TypeVarchar, "C09/routing-info/component-types-follow-the-key-order")
+	// and the key built from bound values
+	vals := make([]interface{}, len(names))
+	k1, k2 := vI32("k1"), vStringN("k2", 1)
+	for i, n := range names {
+		switch n {
+		case "k1":
+			vals[i] = k1
+		case "k2":
+			vals[i] = k2
+		default:
+			vals[i] = []byte{9}
+		}
+	}
+	key, kerr := createRoutingKey(info, vals)
+	want := refCat([]byte{0, 4}, refBE(int64(k1), 4), []byte{0}, []byte{0, 1}, []byte(k2), []byte{0})
+	vAssert(kerr == nil && refBytesEq(key, want), "C09/routing-info/composite-key-in-partition-key-order")
+	vObserve("n", len(key))
 }
